@@ -87,6 +87,8 @@ def check_result(res, want_words, with_words, evalt, letters_of=None):
             return ("shape", "with_words result is not a pair: %r" % (type(res),))
         if sorted(words) != want:
             return ("words", "returned %r, spec %r" % (sorted(words), want))
+        if not isinstance(mats, np.ndarray):
+            return ("elements.type", "documented: `elements` is an ndarray containing one matrix for each accepted word; got %s" % type(mats).__name__)
         mats = np.asarray(mats)
         if mats.shape != (len(words), 2, 2):
             return ("matrices.shape", "%r for %d words" % (mats.shape, len(words)))
@@ -95,6 +97,8 @@ def check_result(res, want_words, with_words, evalt, letters_of=None):
             if not np.allclose(mats[i], evalt[tuple(bykey[w])], rtol=0, atol=1e-9):
                 return ("matrices[i] != image(words[i])", "word %r: %r, spec %r" % (w, mats[i].tolist(), evalt[tuple(bykey[w])].tolist()))
     else:
+        if not isinstance(res, np.ndarray):
+            return ("elements.type", "documented: the result is an ndarray containing one matrix for each accepted word; got %s" % type(res).__name__)
         mats = np.asarray(res)
         if mats.shape != (len(want), 2, 2):
             return ("count", "returned %r matrices, spec %d words" % (mats.shape, len(want)))
@@ -315,6 +319,11 @@ def free_reduced(run):
             want = sorted(w for w in red if (len(w) <= L if mx else len(w) == L))
             mats, words = rep.freely_reduced_elements(L, maxlen=mx, with_words=True)
             run.case(key=("free", L, mx), action="freely_reduced_elements")
+            plain = rep.freely_reduced_elements(L, maxlen=mx)
+            if not (isinstance(mats, np.ndarray) and isinstance(plain, np.ndarray) and np.shape(mats) == np.shape(plain) == (len(words), 2, 2)):
+                run.violation("free:%d:%s:type" % (L, mx), "freely_reduced_elements.elements_type",
+                              dict(L=L, maxlen=mx, got=[type(mats).__name__, type(plain).__name__, list(np.shape(mats))], want="ndarray (n_words, 2, 2)"))
+                continue
             if sorted(words) != want:
                 run.violation("free:%d:%s" % (L, mx), "freely_reduced_elements.words", dict(L=L, maxlen=mx, got=sorted(words)[:20], want=want[:20]))
                 continue
@@ -409,14 +418,17 @@ def ml_chunk(args):
                 return ("shape", "with_words result is not a pair: %r" % (type(res),))
             if Counter(words) != bag:
                 return ("words", "returned %r, spec (string: number of accepting paths) %r" % (sorted(Counter(words).items()), sorted(bag.items())))
-            mats = np.asarray(mats)
+            if not isinstance(mats, np.ndarray):
+                return ("elements.type", "documented: `elements` is an ndarray; got %s" % type(mats).__name__)
             if mats.shape != (total, 2, 2):
                 return ("matrices.shape", "%r for %d words" % (mats.shape, total))
             for i, w in enumerate(words):
                 if not np.allclose(mats[i], ML_IMG[w], rtol=0, atol=1e-9):
                     return ("matrices[i] != image(words[i])", "word %r: %r, spec %r" % (w, mats[i].tolist(), ML_IMG[w].tolist()))
         else:
-            mats = np.asarray(res)
+            if not isinstance(res, np.ndarray):
+                return ("elements.type", "documented: the result is an ndarray; got %s" % type(res).__name__)
+            mats = res
             if mats.shape != (total, 2, 2):
                 return ("count", "returned %r matrices, spec %d accepting paths" % (mats.shape, total))
             got = sorted(tuple(np.round(m.flatten(), 6) + 0.0) for m in mats)
